@@ -13,17 +13,73 @@ def _nontrivial(t):
     return [x['sid'] for x in joins] or None
 
 
+def _statement_level(tier):
+    """The part of C04 that lives between two engine processes: JoinRace.tla model-checked with every protecting primitive
+    switched on and off, and the recorded transactions of the real engine checked (PrimTrace.tla) to use the primitives in
+    the order the model assumes.  A primitive found missing in the real transactions is a VIOLATION only if the model
+    without it violates a property (level = model: the replay is the model's counterexample)."""
+    def post(d, traces, verdict):
+        from harness import joinrace, mdb
+        info, broken, cex = joinrace.model_results(d, tier)
+        withp = [t for t in traces if any('prims' in s_ for s_ in t['steps'])]
+        viol, seen, st = joinrace.conformance(d, withp)
+        for k in ('join_created', 'join_moved', 'dedupe'):
+            if not seen.get(k):
+                raise common.MachineryError('primitive-usage conformance is vacuous: no transaction of kind %s was recorded' % k)
+        missing = dict((rule, hits) for rule, hits in viol.items() if hits)
+        if not joinrace.unique_key_present():
+            missing['UseUniqueKey'] = [(-1, 0)]
+        # the model decides whether what is missing matters (e.g. the defer lock alone is covered by the unique key)
+        key = '+'.join(sorted(set(missing) & set(joinrace.PRIMS)))
+        if missing:
+            offs = sorted(set(missing) & set(joinrace.PRIMS))
+            r = joinrace._run(d, 'observed_missing', 2, 2, off=offs)
+            bad = sorted(set(r.inv_violations))
+            for rule, hits in sorted(missing.items()):
+                ti, l = hits[0]
+                where = ('run [%s scheduler=%s] step %d (%s)' % (withp[ti]['meta'].get('label'), withp[ti]['meta']['scheduler'], l,
+                                                                 withp[ti]['steps'][l - 1]['ev']['what'])) if ti >= 0 else 'database schema'
+                if bad:
+                    verdict.violation({'clause': 'Primitive:' + rule, 'level': 'model', 'model_properties_violated': bad},
+                                      'the real transactions do not use the protecting primitive %s (%d places, first: %s); JoinRace.tla without '
+                                      '%s violates %s: two engine processes can break the property (statement-level race, model counterexample)'
+                                      % (rule, len(hits), where, '+'.join(offs), bad),
+                                      {'level': 'model', 'missing': offs, 'model_counterexample': r.out[-5000:],
+                                       'yaml': withp[ti]['meta'].get('yaml') if ti >= 0 else '', 'job': withp[ti].get('job') if ti >= 0 else None})
+                else:
+                    verdict.divergence('the real transactions do not use the primitive %s as JoinRace.tla assumes (%d places, first: %s); the model '
+                                       'without it still satisfies every property' % (rule, len(hits), where))
+        return {'statement_level_model': info, 'primitives_load_bearing_in_model': broken,
+                'primitive_usage': {'runs_checked': len(withp), 'transactions_creating_a_join': seen.get('join_created', 0),
+                                    'transactions_moving_a_join': seen.get('join_moved', 0), 'dedupe_queries': seen.get('dedupe', 0),
+                                    'rules_violated': {k_: len(v) for k_, v in viol.items()}}}
+    return post
+
+
 def run(tier):
     rnd = random.Random(common.seed() + 4)
     n = 60 if tier == 'quick' else 1500
     jobs = ec.catalogue_jobs(seeds=(1, 2) if tier == 'quick' else (1, 2, 3, 4, 5, 6))
     jobs += ec.random_jobs(rnd, n, gen_kw=dict(p_join=0.95, p_cmd=0.05), label='join')
     jobs += ec.reverse_jobs(rnd, 20 if tier == 'quick' else 300)
+    # a join whose long inbound branch breaks at every distance from the join
+    from harness import gen, engrun
+    for k, (nm, P) in enumerate(gen.long_branch_shapes()):
+        for sch in ('default', 'legacy'):
+            jobs.append(dict(prog=P, scheduler=sch, policy=engrun.POLICIES[1:][(k + (sch == 'legacy')) % 7], seed=k + 1, label=nm))
+    # a join behind the pause command: resumed at every point after the pause
+    pj = dict(gen.catalogue())['cmd_pause_join']
+    for sch in ('default', 'legacy'):
+        for at in range(3, 15):
+            jobs.append(dict(prog=pj, scheduler=sch, policy=('random', 'starve_ptq', 'results_first', 'fifo', 'lifo')[at % 5], seed=at, label='pause_join',
+                             ops=[dict(at=at, op='resume'), dict(at=10 ** 6, op='resume')]))
+    for k, j in enumerate(jobs):
+        j['prims'] = (k % 2 == 0)
     return ec.run_property(PID, tier, jobs,
                            'generated direct DAGs with all/one/N joins (incl. nested joins, joins fed by on-error/on-complete and by '
                            'guards that do not fire) and reverse requires-graphs, run on the real engine under both schedulers and 8 '
-                           'schedule policies; non-trivial = distinct runs in which at least one join with >= 2 inbound branches started or failed',
-                           _nontrivial, model_runs=lambda d: ec.catalogue_model_runs(d, tier), strict=True, prescribed=True,
+                           'schedule policies; joins fed by a 6-task branch that breaks at every distance; non-trivial = distinct runs in which at least one join with >= 2 inbound branches started or failed',
+                           _nontrivial, model_runs=lambda d: ec.catalogue_model_runs(d, tier), strict=True, prescribed=True, post=_statement_level(tier),
                            model_behaviours=lambda d: ec.model_jobs(d, tier, sims=[(None, 2 if tier == 'quick' else 10, 0, 0, ())],
                                                                     probes=[('join_started_twice', 'diamond_j1_ok', '\\E x \\in Names : IsJoin(x) /\\ Len(ax[x]) > 1', 0, 0, ())]))
 
